@@ -168,6 +168,12 @@ def step (s : St) (toks : List String) : St × String :=
       let res := execBlock leafHash registry { base := s.base, height := s.height + 1, time := t } txs
       ({ s with last := some (res.writeSet, t) }, showResult res)
     | _, _ => (s, "bad-op")
+  | "nblk" :: dt :: rest =>
+    -- a block of real native-contract transactions: evaluated on the implementation only (k identical executions);
+    -- for the scripted contract's keys it is an empty block
+    match dt.toNat? with
+    | some d => ({ s with last := some ([], s.time + 1 + d) }, "same n=" ++ toString rest.length)
+    | none => (s, "bad-op")
   | ["commit"] =>
     match s.last with
     | some (ws, t) => ({ base := ws.persistInto s.base, height := s.height + 1, time := t, last := none }, "ok")
